@@ -80,6 +80,26 @@ def universe(n_seeds, cap):
 FOREIGN = [None, 0, 7.5, "", (), [], {}]
 
 
+class Duck(object):
+    """A value of another type that quacks like a CVSS object."""
+
+    def __init__(self, like):
+        self.like = like
+        self.vector = like.vector
+        self.metrics = dict(getattr(like, "metrics", {}))
+        self.original_metrics = dict(getattr(like, "original_metrics", {}))
+        self.minor_version = getattr(like, "minor_version", None)
+
+    def clean_vector(self, output_prefix=True):
+        return self.like.clean_vector()
+
+    def scores(self):
+        return self.like.scores()
+
+    def __hash__(self):
+        return hash(self.like)
+
+
 def unary(i):
     fam, s, key = _U[i]
     cls = observe.cls_of(fam)
@@ -116,7 +136,7 @@ def unary(i):
             return "clean_vector() is not idempotent: %r -> %r" % (cv, y.clean_vector()), None
         if hash(y) != hash(x):
             return "re-parsed cleaned vector hashes differently", None
-        for f in FOREIGN + [cv, x.scores(), s, object()]:
+        for f in FOREIGN + [cv, x.scores(), s, object(), Duck(x)]:
             if x == f or f == x:
                 return "object compares equal to %r" % (f,), None
         if x != x or not (x == x):
